@@ -377,3 +377,79 @@ theorem design_splice_rule (xs : Array Rat) (s : Rat) (h : xs.size ≠ 0) : ix0R
   ix0Rule_eq_taIx0 xs s h
 
 end DtsVerif.C03
+
+namespace DtsVerif.C01
+open DtsVerif.Calib DtsVerif.Calib.Input DtsVerif.Design DtsVerif.Py
+
+/-- matching rows of the model follow the `nt·nx` reference rows and are numbered like `y_m = (…).T.ravel()`: row `j·nm + p` is
+pair `p` at time `j` -/
+theorem design_model_match_row (inp : Input) (hfa : inp.fixAlpha = none) (j pi : Nat) (hj : j < inp.nt) (hpi : pi < inp.pairs.size) :
+    inp.obsSingle[inp.nt * inp.ixSec.size + (j * inp.pairs.size + pi)]? = some (inp.matObsS j pi) := by
+  have ham : inp.alphaMode = false := by simp [alphaMode, hfa]
+  have hshape : inp.obsSingle = ravelC inp.nt inp.ixSec.size inp.refObsS ++ ravelC inp.nt inp.pairs.size inp.matObsS := by
+    unfold obsSingle ravelC; simp [ham]
+  rw [hshape, List.getElem?_append_right (by rw [length_ravelC]; omega), length_ravelC]
+  have : inp.nt * inp.ixSec.size + (j * inp.pairs.size + pi) - inp.nt * inp.ixSec.size = j * inp.pairs.size + pi := by omega
+  rw [this]
+  exact getElem?_ravelC _ _ _ _ _ hj hpi
+
+/-- the entry of the splice part of the matching block that belongs to (pair `p`, time `j`, splice `a`): row `j·nm + p`, column
+`j + a·nt` of the block, value `M[p][a]` -/
+theorem design_mt_entry {α} [Inhabited α] (M : List (List α)) (nt nta j pi a : Nat) (hj : j < nt) (hpi : pi < M.length) (ha : a < nta) :
+    a * (M.length * nt) + (j * M.length + pi) < nta * (M.length * nt) ∧
+    (sMtRow M.length nt nta)[a * (M.length * nt) + (j * M.length + pi)]? = some (j * M.length + pi) ∧
+    (sMtCol M.length nt nta)[a * (M.length * nt) + (j * M.length + pi)]? = some (j + a * nt) ∧
+    (sMtData M nt nta)[a * (M.length * nt) + (j * M.length + pi)]? = (M[pi]?).map (fun r => r.getD a default) := by
+  have hq : j * M.length + pi < M.length * nt := by
+    calc j * M.length + pi < j * M.length + M.length := by omega
+      _ = (j + 1) * M.length := by rw [Nat.add_mul, Nat.one_mul]
+      _ ≤ nt * M.length := Nat.mul_le_mul_right _ hj
+      _ = M.length * nt := Nat.mul_comm _ _
+  have he : a * (M.length * nt) + (j * M.length + pi) < nta * (M.length * nt) := by
+    calc a * (M.length * nt) + (j * M.length + pi) < a * (M.length * nt) + M.length * nt := by omega
+      _ = (a + 1) * (M.length * nt) := by rw [Nat.add_mul, Nat.one_mul]
+      _ ≤ nta * (M.length * nt) := Nat.mul_le_mul_right _ ha
+  obtain ⟨hd1, hm1⟩ := div_mod_of_lt a (M.length * nt) (j * M.length + pi) hq
+  obtain ⟨hd2, hm2⟩ := div_mod_of_lt j M.length pi hpi
+  obtain ⟨hrow, hcol⟩ := sMt_entry M.length nt nta _ he
+  refine ⟨he, ?_, ?_, ?_⟩
+  · rw [hrow, hm1]
+  · rw [hcol, hm1, hd1, hd2]
+  · rw [sMtData_entry M nt nta _ he, hm1, hd1, hm2]
+
+theorem mem_cf_filterMap (n : Nat) (cf : Nat → Rat) (col : Nat → Nat) (c : Nat) (v : Rat) :
+    (c, v) ∈ ((List.range n).filterMap fun a => if cf a = 0 then none else some (col a, cf a)) ↔
+      ∃ a, a < n ∧ cf a ≠ 0 ∧ col a = c ∧ cf a = v := by
+  simp only [List.mem_filterMap, List.mem_range]
+  constructor
+  · rintro ⟨a, ha, h⟩
+    by_cases hz : cf a = 0
+    · simp [hz] at h
+    · simp [hz] at h
+      exact ⟨a, ha, hz, h.1, h.2⟩
+  · rintro ⟨a, ha, hz, hc, hv⟩
+    refine ⟨a, ha, ?_⟩
+    rw [if_neg hz, hc, hv]
+
+/-- which splice coefficients the model's matching row has: the loss of splice `a` at time `j` with coefficient
+`matCf = [x_tail ≥ s_a] − [x_head ≥ s_a]` when that is non-zero, and nothing otherwise — the `transient_m_data[ii, jj]` of the source -/
+theorem match_row_ta_mem (inp : Input) (hfa : inp.fixAlpha = none) (j pi a : Nat) (hj : j < inp.nt) (ha : a < inp.nta) (v : Rat) :
+    (inp.colTa a j, v) ∈ (inp.matObsS j pi).c ↔ (v = inp.matCf pi a ∧ v ≠ 0) := by
+  have hnt : 0 < inp.nt := by omega
+  have ham : inp.alphaMode = false := by simp [alphaMode, hfa]
+  have hcolTa : ∀ a', inp.colTa a' j = 2 + inp.nt + a' * inp.nt + j := by intro a'; simp [colTa, ham]
+  unfold matObsS
+  simp only [List.mem_append, List.mem_cons, List.mem_nil_iff, or_false, Prod.mk.injEq]
+  rw [mem_cf_filterMap inp.nta (inp.matCf pi) (fun a => inp.colTa a j)]
+  constructor
+  · rintro (h | ⟨a', _, hz, hc, hv⟩)
+    · have := h.1; rw [hcolTa] at this; simp [colDalpha] at this; omega
+    · simp only [hcolTa] at hc
+      have h2 : a' * inp.nt = a * inp.nt := by omega
+      have : a' = a := Nat.eq_of_mul_eq_mul_right hnt h2
+      subst this
+      exact ⟨hv.symm, by rw [← hv]; exact hz⟩
+  · rintro ⟨hv, hne⟩
+    exact Or.inr ⟨a, ha, by rw [← hv]; exact hne, rfl, hv.symm⟩
+
+end DtsVerif.C01
